@@ -650,6 +650,8 @@ def c15_oblig(ctx):
             if m in ('expect', 'unwrap') and a0 is not None:
                 if a0[0] == 'call' and method_of(a0) == 'join':
                     how, why = 'propagation', 're-raises a worker panic (C14); not a configuration failure'
+                elif a0[0] == 'call' and method_of(a0) == 'spawn_scoped' and sg(a0[1]).startswith('std::thread::'):
+                    how, why = 'assumption-env', 'the OS refusing a thread is an environment failure; Scope::spawn panics in exactly the same way'
                 elif a0[0] == 'call' and method_of(a0) == 'new' and 'NonZero' in a0[1] and any(pt == a0[2][0] and f[0] == 'ne' and 0 in f[1] for pt, f in c['pc']):
                     how, why = 'guard', 'NonZero::new(%s) with %s != 0 on this path' % (t_str(a0[2][0]), t_str(a0[2][0]))
                 else:
